@@ -56,6 +56,9 @@ SCHEMES = {
     "frac": ("dna", dna_matrix(2.5, -0.5, -1.5)),
     "frac2": ("dna", dna_matrix(0.9, -0.9, -0.9)),
     "prot": ("protein", {(a, b): (10 if a == b else -1) for a in PROT for b in PROT}),
+    # a caller's own protein table, unlike every default of the library (seeded change C18-s6 swapped the table supplied for a
+    # non-DNA moltype for the generic 10 / -1 one, which the scheme above cannot tell apart)
+    "prot2": ("protein", {(a, b): (6 if a == b else 3 if {a, b} == {"K", "V"} else -2) for a in PROT for b in PROT}),
 }
 NLETTERS = {"dna": 4, "protein": 21}
 GAPS = [[10, 2], [3, 1], [0.5, 2]]
@@ -132,6 +135,11 @@ def gen_pairs(tier, seed, local):
     if local:
         for k in range(1500 if thorough else 150):
             yield [rword(rnd, 1, 5), rword(rnd, 1, 5), SYM[k % 3], GAPS_MORE[k % len(GAPS_MORE)], "app"]
+        # the app with a caller-supplied matrix on another moltype than DNA (the matrix must be the one used)
+        for k in range(600 if thorough else 80):
+            yield [rword(rnd, 1, 5, "MKVLU"), rword(rnd, 1, 5, "MKVLU"), ("prot2", "prot")[k % 4 == 3], GAPS_MORE[k % len(GAPS_MORE)], "app"]
+            if k % 2:
+                yield [rword(rnd, 1, 4, "MKVLU"), rword(rnd, 1, 4, "MKVLU"), "prot2", GAPS_MORE[k % len(GAPS_MORE)], "func"]
     # beyond the frontier: length 5 (still enumerated) and longer (optimum by the spec's own recurrence)
     for k in range(2500 if thorough else 150):
         yield [rword(rnd, 1, 5), rword(rnd, 5, 5) if k % 2 else rword(rnd, 1, 5), SYM[k % 3],
